@@ -227,18 +227,24 @@ impl Array6 {
             .map_err(insufficient_data("data"))?;
 
         // Create estimator and restore state
-        let mut estimator = HipEstimator::new(lg_config_k);
-        estimator.set_hip_accum(hip_accum);
-        estimator.set_kxq0(kxq0);
-        estimator.set_kxq1(kxq1);
-        estimator.set_out_of_order(ooo);
+        let estimator = HipEstimator::from_image(lg_config_k, hip_accum, kxq0, kxq1, ooo)?;
 
-        Ok(Self {
+        let array = Self {
             lg_config_k,
             bytes: data.into_boxed_slice(),
             num_zeros,
             estimator,
-        })
+        };
+        // num_zeros is decremented on updates: it must match the registers
+        let zeros = (0..(1u32 << lg_config_k))
+            .filter(|&slot| array.get(slot) == 0)
+            .count() as u32;
+        if zeros != num_zeros {
+            return Err(Error::deserial(format!(
+                "num_zeros is {num_zeros} but {zeros} registers are zero"
+            )));
+        }
+        Ok(array)
     }
 
     /// Serialize Array6 to bytes
